@@ -19,16 +19,31 @@ import (
 	"github.com/rivo/uniseg"
 	"go.pennock.tech/tabular"
 	"go.pennock.tech/tabular/length"
+	"go.pennock.tech/tabular/texttable"
+	"go.pennock.tech/tabular/texttable/decoration"
 )
 
 type C18Spec struct {
-	S    []byte `json:"s"`
-	Q    string `json:"q,omitempty"` // preview of S
-	Kind int    `json:"kind,omitempty"`
+	S     []byte   `json:"s"`
+	Q     string   `json:"q,omitempty"` // preview of S
+	Kind  int      `json:"kind,omitempty"`
+	Next  [][]byte `json:"next,omitempty"`   // texts the item is changed to, Update() after each (kinds 1,2,3,5; otherwise only Update())
+	NextQ []string `json:"next_q,omitempty"` // preview of Next
+	RMode int      `json:"rmode,omitempty"`  // render probe: 0 none, 1 only body cell, 2 only header cell
 }
 
 func c18Spec(s string, kind int) C18Spec {
 	return C18Spec{S: []byte(s), Q: fmt.Sprintf("%q", s), Kind: kind}
+}
+
+func c18SpecFull(s string, kind int, next []string, rmode int) C18Spec {
+	sp := c18Spec(s, kind)
+	for _, n := range next {
+		sp.Next = append(sp.Next, []byte(n))
+		sp.NextQ = append(sp.NextQ, fmt.Sprintf("%q", n))
+	}
+	sp.RMode = rmode
+	return sp
 }
 
 type meas struct{ B, R, C int }
@@ -37,17 +52,33 @@ func (m meas) Coq() string {
 	return fmt.Sprintf("(%s, %s, %s)", cqNat(m.B), cqNat(m.R), cqNat(m.C))
 }
 
+type C18CellObs struct {
+	Text  string   `json:"text"`
+	Lines []string `json:"lines"`
+	H     int      `json:"height"`
+	W     int      `json:"width"`
+	LW    []int    `json:"line_cells"` // length.StringCells of every line of Text
+}
+
+func (c C18CellObs) Coq() string {
+	lw := make([]string, len(c.LW))
+	for i, w := range c.LW {
+		lw[i] = cqNat(w)
+	}
+	return fmt.Sprintf("(mkCO18 %s %s %s %s %s)", cqStr(c.Text), cqStrs(c.Lines), cqZ(int64(c.H)), cqZ(int64(c.W)), cqList(lw))
+}
+
 type C18Obs struct {
-	Panic  string   `json:"panic,omitempty"`
-	Lines  []string `json:"lines"`
-	LMeas  []meas   `json:"line_measures"`
-	Whole  meas     `json:"whole"`
-	Long   meas     `json:"longest"`
-	CText  string   `json:"cell_text"`
-	CLines []string `json:"cell_lines"`
-	CH     int      `json:"cell_height"`
-	CW     int      `json:"cell_width"`
-	Sig    string   `json:"sig,omitempty"`
+	Panic      string       `json:"panic,omitempty"`
+	Lines      []string     `json:"lines"`
+	LMeas      []meas       `json:"line_measures"`
+	Whole      meas         `json:"whole"`
+	Long       meas         `json:"longest"`
+	Cell       C18CellObs   `json:"cell"`
+	Steps      []C18CellObs `json:"cell_after_updates,omitempty"`
+	Render     string       `json:"rendered,omitempty"`
+	RenderLast string       `json:"rendered_after_last_update,omitempty"`
+	Sig        string       `json:"sig,omitempty"`
 }
 
 func cqStrs(xs []string) string {
@@ -66,34 +97,62 @@ func (o C18Obs) Coq() string {
 	for i, m := range o.LMeas {
 		ms[i] = m.Coq()
 	}
-	return fmt.Sprintf("(Ok (mkObs18 %s %s %s %s %s %s %s %s))", cqStrs(o.Lines), cqList(ms), o.Whole.Coq(), o.Long.Coq(),
-		cqStr(o.CText), cqStrs(o.CLines), cqZ(int64(o.CH)), cqZ(int64(o.CW)))
-}
-
-// the item that carries s into the cell
-func c18Item(s string, kind int) interface{} {
-	switch kind {
-	case 1:
-		v, _ := newObj(1, objData{s: s})
-		return v
-	case 2:
-		v, _ := newObj(4, objData{e: s})
-		return v
-	case 3:
-		v, _ := newObj(2, objData{g: s})
-		return v
-	case 4:
-		return tabular.NewCell(s)
+	st := make([]string, len(o.Steps))
+	for i, c := range o.Steps {
+		st[i] = c.Coq()
 	}
-	return s
+	return fmt.Sprintf("(Ok (mkObs18 %s %s %s %s %s %s %s %s))", cqStrs(o.Lines), cqList(ms), o.Whole.Coq(), o.Long.Coq(),
+		o.Cell.Coq(), cqList(st), cqStr(o.Render), cqStr(o.RenderLast))
 }
 
-func c18Observe(s string, kind int) (o C18Obs) {
+// the item that carries s into the cell, and how to change its text
+func c18Item(s string, kind int) (interface{}, func(string)) {
+	switch kind {
+	case 1, 5:
+		v, d := newObj(1, objData{s: s})
+		return v, func(t string) { d.s = t }
+	case 2:
+		v, d := newObj(4, objData{e: s})
+		return v, func(t string) { d.e = t }
+	case 3:
+		v, d := newObj(2, objData{g: s})
+		return v, func(t string) { d.g = t }
+	case 4:
+		return tabular.NewCell(s), func(string) {}
+	}
+	return s, func(string) {}
+}
+
+func c18ObserveCell(c *tabular.Cell) C18CellObs {
+	o := C18CellObs{Text: c.String(), Lines: c.Lines(), H: c.Height(), W: c.TerminalCellWidth(), LW: []int{}}
+	if o.Lines == nil {
+		o.Lines = []string{}
+	}
+	for _, l := range ownLines(o.Text) {
+		o.LW = append(o.LW, length.StringCells(l))
+	}
+	return o
+}
+
+func c18Render(t tabular.Table) string {
+	tt := texttable.Wrap(t)
+	if _, err := tt.SetDecorationNamed(decoration.D_ASCII_SIMPLE); err != nil {
+		panic("harness: ascii-simple decoration is not registered: " + err.Error())
+	}
+	out, err := tt.Render()
+	if err != nil {
+		return "render error: " + err.Error()
+	}
+	return out
+}
+
+func c18Observe(sp C18Spec) (o C18Obs) {
 	defer func() {
 		if r := recover(); r != nil {
 			o = C18Obs{Panic: fmt.Sprint(r)}
 		}
 	}()
+	s, kind := string(sp.S), sp.Kind
 	m := func(x string) meas {
 		return meas{length.StringBytes(x), length.StringRunes(x), length.StringCells(x)}
 	}
@@ -106,14 +165,41 @@ func c18Observe(s string, kind int) (o C18Obs) {
 	}
 	o.Whole = m(s)
 	o.Long = meas{length.LongestLineBytes(s), length.LongestLineRunes(s), length.LongestLineCells(s)}
-	c := tabular.NewCell(c18Item(s, kind))
-	o.CText = c.String()
-	o.CLines = c.Lines()
-	if o.CLines == nil {
-		o.CLines = []string{}
+	item, set := c18Item(s, kind)
+	var c *tabular.Cell
+	var home tabular.Table
+	if kind == 5 {
+		// the cell lives in a table and is reached through CellAt
+		home = tabular.New()
+		home.AddRowItems(item)
+		var err error
+		if c, err = home.CellAt(tabular.CellLocation{Row: 1, Column: 1}); err != nil {
+			panic("CellAt(1,1): " + err.Error())
+		}
+	} else {
+		nc := tabular.NewCell(item)
+		c = &nc
 	}
-	o.CH = c.Height()
-	o.CW = c.TerminalCellWidth()
+	o.Cell = c18ObserveCell(c)
+	for _, t := range sp.Next {
+		set(string(t))
+		c.Update()
+		o.Steps = append(o.Steps, c18ObserveCell(c))
+	}
+	if home != nil {
+		o.RenderLast = c18Render(home)
+	}
+	if sp.RMode != 0 {
+		// a fresh item in a fresh one-cell table
+		it2, _ := c18Item(s, kind)
+		t := tabular.New()
+		if sp.RMode == 2 {
+			t.AddHeaders(it2)
+		} else {
+			t.AddRowItems(it2)
+		}
+		o.Render = c18Render(t)
+	}
 	return o
 }
 
@@ -271,6 +357,71 @@ func c18Rand(r *RNG) string {
 	return sb.String()
 }
 
+// the texts a mutable item is taken through: -> "", -> longer with more
+// lines, -> shorter, -> more lines, -> fewer lines, -> "" again
+func c18Chain(s string) []string {
+	return []string{"", s + "\nzz\n世", s[:len(s)/2], "a\nb\nc\n", "a", ""}
+}
+
+// the widest line is plain ASCII and at least as many bytes as every other
+// line, another line has characters whose display width is not their byte count
+func c18AsciiWidest(s string) bool {
+	ls := ownLines(s)
+	if len(ls) < 2 {
+		return false
+	}
+	wi, other := -1, false
+	for i, l := range ls {
+		if wi < 0 || runewidth.StringWidth(l) > runewidth.StringWidth(ls[wi]) {
+			wi = i
+		}
+	}
+	for _, c := range []byte(ls[wi]) {
+		if c < 0x20 || c >= 0x7f {
+			return false
+		}
+	}
+	for i, l := range ls {
+		if i != wi && runewidth.StringWidth(l) != len(l) {
+			other = true
+		}
+		if len(l) > len(ls[wi]) {
+			return false
+		}
+	}
+	return other
+}
+
+var c18Words = []string{"hello world", "total", "abcdefgh", "x y z w", "ab"}
+var c18Shorts = []string{"café", "£12", "世", "é", "á", "​", "❤️", "\xff", "ｱ", "한", "a\tb", "­x", "ｶﾞ"}
+
+func (sp C18Spec) key() string {
+	var sb strings.Builder
+	fmt.Fprintf(&sb, "%d:%d:%s", sp.Kind, sp.RMode, sp.S)
+	for _, n := range sp.Next {
+		fmt.Fprintf(&sb, "\x00>%s", n)
+	}
+	return sb.String()
+}
+
+func (sp C18Spec) size() int {
+	n := len(sp.S)*8 + sp.Kind + 10*len(sp.Next)
+	for _, t := range sp.Next {
+		n += len(t)
+	}
+	if sp.RMode != 0 {
+		n++
+	}
+	return n
+}
+
+func (sp C18Spec) with(s string) C18Spec {
+	c := sp
+	c.S = []byte(s)
+	c.Q = fmt.Sprintf("%q", s)
+	return c
+}
+
 func init() {
 	register(&Prop{
 		ID:       "C18",
@@ -279,15 +430,17 @@ func init() {
 		CaseFn:   "C18_case",
 		ModelFn:  "C18_model",
 		Rule: "one string per case, measured by length.Lines / StringBytes / StringRunes / StringCells / LongestLine{Bytes,Runes,Cells} and stored in a cell " +
-			"(as a string; for short strings also behind String(), Error(), GoString() and as a nested Cell) whose String / Lines / Height / TerminalCellWidth are read; " +
-			"every string of up to 4 (quick) or 5 (thorough) symbols over {LF, 'a', U+4E16 (3 bytes, double width), U+0301 (combining), byte 0xFF}, and random strings up to ~30 bytes over " +
+			"(as a string; for short strings also behind String(), Error(), GoString(), as a nested Cell, and behind String() in a cell that lives in a table and is reached through CellAt) whose String / Lines / Height / TerminalCellWidth are read; " +
+			"for the mutable item kinds the text is then taken through a chain (-> empty, -> longer with more lines, -> shorter, -> more lines, -> fewer lines, -> empty) with Update() and the same reads after every step; " +
+			"render probe: the item as the only body (or header) cell of a table rendered by texttable with the ascii-simple decoration, the bytes compared with rules of width+2 dashes and content lines padded by width - StringCells(line) (for the table-held cell also after the last Update); " +
+			"every string of up to 4 (quick) or 5 (thorough) symbols over {LF, 'a', U+4E16 (3 bytes, double width), U+0301 (combining), byte 0xFF}, multi-line strings whose widest line is plain ASCII next to a shorter line with multi-byte / wide / combining / zero-width characters, and random strings up to ~30 bytes over " +
 			"CJK, combining marks, ZWJ emoji sequences, VS16, regional indicators, tabs, CR, CRLF, NUL, DEL, soft hyphen and ill-formed UTF-8 (truncated, overlong, surrogate, > U+10FFFF, stray continuation), with leading/repeated/trailing newlines; " +
-			"grapheme clusters and rune widths of the string and of each line are taken from the real uniseg / go-runewidth and the three oracle assumptions are checked on them; " +
-			"a case is non-trivial when the string is not empty; distinct = distinct (string, item kind)",
-		Exhaustive: "all strings of length <= 4 (quick: 781) / <= 5 (thorough: 3906) over the 5-symbol alphabet stored as a string, and all of length <= 3 also in the four other item kinds",
+			"grapheme clusters and rune widths of every string measured and of each of its lines are taken from the real uniseg / go-runewidth and the three oracle assumptions are checked on them; " +
+			"a case is non-trivial when the string is not empty; distinct = distinct (string, item kind, update chain, render mode)",
+		Exhaustive: "all strings of length <= 4 (quick: 781) / <= 5 (thorough: 3906) over the 5-symbol alphabet stored as a string and rendered as a body cell, and all of length <= 3 also in the five other item kinds (rendered as a header cell; the four mutable kinds with the six-step update chain)",
 		Gen: func(r *RNG, tier string) []json.RawMessage {
 			var out []json.RawMessage
-			add := func(s string, kind int) { out = append(out, mustJSON(c18Spec(s, kind))) }
+			add := func(sp C18Spec) { out = append(out, mustJSON(sp)) }
 			alpha := []string{"\n", "a", "世", "́", "\xff"}
 			maxLen := 4
 			if tier == "thorough" {
@@ -295,11 +448,12 @@ func init() {
 			}
 			var rec func(prefix string, n int)
 			rec = func(prefix string, n int) {
-				add(prefix, 0)
+				add(c18SpecFull(prefix, 0, nil, 1))
 				if n <= 3 {
-					for k := 1; k <= 4; k++ {
-						add(prefix, k)
+					for _, k := range []int{1, 2, 3, 5} {
+						add(c18SpecFull(prefix, k, c18Chain(prefix), 2))
 					}
+					add(c18SpecFull(prefix, 4, []string{""}, 2))
 				}
 				if n == maxLen {
 					return
@@ -309,16 +463,52 @@ func init() {
 				}
 			}
 			rec("", 0)
+			// widest line ASCII, another line not
+			i := 0
+			for _, w := range c18Words {
+				for _, sh := range c18Shorts {
+					if len(sh) > len(w) {
+						continue
+					}
+					for _, s := range []string{w + "\n" + sh, sh + "\n" + w + "\n", w + "\n" + sh + "\n" + sh + "a", "a\n" + w + "\n\n" + sh} {
+						add(c18SpecFull(s, 0, nil, 1+i%2))
+						i++
+					}
+					add(c18SpecFull(w+"\n"+sh, 5, []string{sh + "\n" + w, "", w + "\n" + sh + "\nb"}, 1))
+					add(c18SpecFull(sh, 1, []string{w + "\n" + sh, sh}, 2))
+				}
+			}
 			n := 1500
 			if tier == "thorough" {
 				n = 60000
 			}
 			for i := 0; i < n; i++ {
 				kind := 0
-				if r.Pct(30) {
-					kind = 1 + r.Intn(4)
+				if r.Pct(35) {
+					kind = 1 + r.Intn(5)
 				}
-				add(c18Rand(r), kind)
+				var next []string
+				if kind != 0 && kind != 4 {
+					for k := r.Intn(4); k > 0; k-- {
+						switch {
+						case r.Pct(30):
+							next = append(next, "")
+						case r.Pct(30):
+							next = append(next, pick(r, c18Words)+"\n"+pick(r, c18Shorts))
+						default:
+							next = append(next, c18Rand(r))
+						}
+					}
+				}
+				s := c18Rand(r)
+				if r.Pct(10) {
+					s = pick(r, c18Words) + "\n" + c18Rand(r)
+				}
+				rmode := 1 + r.Intn(2)
+				if r.Pct(10) {
+					rmode = 0
+				}
+				add(c18SpecFull(s, kind, next, rmode))
 			}
 			return out
 		},
@@ -328,16 +518,36 @@ func init() {
 				panic(err)
 			}
 			s := string(sp.S)
-			o := c18Observe(s, sp.Kind)
+			o := c18Observe(sp)
 			strs := append([]string{s}, ownLines(s)...)
+			nexts := make([]string, len(sp.Next))
+			for i, t := range sp.Next {
+				nexts[i] = cqStr(string(t))
+				strs = append(strs, string(t))
+				strs = append(strs, ownLines(string(t))...)
+			}
 			segTab, rwTab, cwTab := c18Oracle(strs)
-			in := fmt.Sprintf("(mkIn18 %s %s %s %s %s)", cqStr(s), cqNat(sp.Kind), segTab, rwTab, cwTab)
+			in := fmt.Sprintf("(mkIn18 %s %s %s %s %s %s %s)", cqStr(s), cqNat(sp.Kind), cqList(nexts), cqNat(sp.RMode), segTab, rwTab, cwTab)
+			tags := append(c18Tags(s, sp.Kind), fmt.Sprintf("updates=%d", min(len(sp.Next), 4)), fmt.Sprintf("rmode=%d", sp.RMode))
+			if c18AsciiWidest(s) {
+				tags = append(tags, "widest-line-ascii-other-line-not")
+			}
+			for i, t := range sp.Next {
+				prev := s
+				if i > 0 {
+					prev = string(sp.Next[i-1])
+				}
+				if len(t) == 0 && len(prev) > 0 && sp.Kind != 0 && sp.Kind != 4 {
+					tags = append(tags, "update-to-empty")
+					break
+				}
+			}
 			return CaseOut{
 				Coq:        cqPair(in, o.Coq()),
 				Desc:       o,
-				Size:       len(s)*8 + sp.Kind,
-				Tags:       c18Tags(s, sp.Kind),
-				Key:        fmt.Sprintf("%d:%s", sp.Kind, s),
+				Size:       sp.size(),
+				Tags:       tags,
+				Key:        sp.key(),
 				Nontrivial: len(s) > 0,
 			}
 		},
@@ -347,19 +557,51 @@ func init() {
 				return nil
 			}
 			var out []json.RawMessage
+			add := func(c C18Spec) { out = append(out, mustJSON(c)) }
 			s := string(sp.S)
+			if len(sp.Next) > 0 {
+				c := sp
+				c.Next, c.NextQ = nil, nil
+				add(c)
+				for i := range sp.Next {
+					c := sp
+					c.Next = append(append([][]byte{}, sp.Next[:i]...), sp.Next[i+1:]...)
+					c.NextQ = nil
+					add(c)
+					if len(sp.Next[i]) > 1 {
+						c := sp
+						c.Next = append([][]byte{}, sp.Next...)
+						c.Next[i] = sp.Next[i][:len(sp.Next[i])/2]
+						c.NextQ = nil
+						add(c)
+					}
+				}
+			}
+			if sp.RMode != 0 {
+				c := sp
+				c.RMode = 0
+				add(c)
+			}
 			if sp.Kind != 0 {
-				out = append(out, mustJSON(c18Spec(s, 0)))
+				c := sp
+				c.Kind = 0
+				add(c)
+				if sp.Kind != 1 {
+					c := sp
+					c.Kind = 1
+					add(c)
+				}
 			}
 			if len(s) > 1 {
-				out = append(out, mustJSON(c18Spec(s[:len(s)/2], sp.Kind)), mustJSON(c18Spec(s[len(s)/2:], sp.Kind)))
+				add(sp.with(s[:len(s)/2]))
+				add(sp.with(s[len(s)/2:]))
 			}
 			for i := 0; i < len(s); i++ {
-				out = append(out, mustJSON(c18Spec(s[:i]+s[i+1:], sp.Kind)))
+				add(sp.with(s[:i] + s[i+1:]))
 			}
 			for i := 0; i < len(s); i++ {
 				if s[i] != 'a' && s[i] != '\n' {
-					out = append(out, mustJSON(c18Spec(s[:i]+"a"+s[i+1:], sp.Kind)))
+					add(sp.with(s[:i] + "a" + s[i+1:]))
 				}
 			}
 			return out
